@@ -509,7 +509,7 @@ func (c *Ctx) strLit(v string) string {
 	if n, ok := c.strLits[v]; ok {
 		return n
 	}
-	n := fmt.Sprintf("str!%d", len(c.strLits))
+	n := fmt.Sprintf("strlit!%d", len(c.strLits))
 	c.strLits[v] = n
 	c.decls = append(c.decls, fmt.Sprintf("(declare-const %s Str) ; %q", n, truncate(v, 40)))
 	c.decls = append(c.decls, fmt.Sprintf("(assert (= (strlen %s) %s))", n, c.ar.idx(int64(len(v)))))
